@@ -1,6 +1,7 @@
 package main
 
 import (
+	"strconv"
 	"verifharness/docs"
 	"verifharness/gen"
 	"verifharness/mon"
@@ -111,6 +112,25 @@ func c01(r *mon.Run) {
 			res, _, _ := cx.runBoth(tree, expr, doc)
 			c01Account(t, tree, expr, doc, res, i)
 		}})
+	// long chains: the n-th step of a path must be applied exactly once whatever n is (loops over fixed-size
+	// buffers, recursion cut-offs); every level has its own key / position, or (self-similar modes) its own
+	// depth marker, so that a skipped or repeated step changes the answer
+	chainLens := []int{1, 2, 3, 5, 7, 8, 9, 12, 15, 16, 17, 18, 20, 24, 31, 32, 33, 40, 48, 63, 64, 65, 100, 127, 128, 129, 200, 255, 256, 257, 400}
+	if r.Tier == "thorough" {
+		chainLens = append(chainLens, 511, 512, 513, 1000, 1023, 1024, 1025, 2000)
+	}
+	const chainModes = 6
+	ws = append(ws, mon.Workload{Name: "long-chains", N: len(chainLens) * chainModes, Batch: 10,
+		Do: func(i int, t *mon.Tally) {
+			tree, doc := longChain(chainLens[i/chainModes], i%chainModes)
+			expr := gen.SpellTight(tree)
+			cx := &caseCtx{r, t, "long-chains", i}
+			res, _, _ := cx.runBoth(tree, expr, doc)
+			if nonNull(res) {
+				t.Count("long chains with a non-null expected result")
+				t.Nontrivial("chain:" + strconv.Itoa(i))
+			}
+		}})
 	nrand := tierPick(r, 40000, 1000000)
 	ws = append(ws, mon.Workload{Name: "core-random", N: nrand,
 		Do: func(i int, t *mon.Tally) {
@@ -133,6 +153,64 @@ func c01(r *mon.Run) {
 			c01Account(t, tree, expr, doc, res, i)
 		}})
 	r.Exec(ws...)
+}
+
+// longChain builds a path of n steps and a document on which exactly that path leads to a marker.
+//
+//	mode 0: distinct field names k1.k2.….kn            mode 1: fields and indices alternating
+//	mode 2: the same name n times on a deeper self-similar document (a.a.a…)
+//	mode 3: the same index n times on self-similar nested arrays ([1][1][1]…)
+//	mode 4: as 1, cut by a pipe in the middle          mode 5: as 1, inside a multi-select list after a pipe
+func longChain(n, mode int) (*gen.Expr, interface{}) {
+	var steps []gen.Step
+	var doc interface{}
+	switch mode {
+	case 2:
+		doc = "bottom"
+		for d := n + 3; d >= 1; d-- {
+			doc = map[string]interface{}{"a": doc, "depth": float64(d)}
+		}
+		for k := 0; k < n; k++ {
+			steps = append(steps, gen.StField("a"))
+		}
+		steps = append(steps, gen.StField("depth"))
+	case 3:
+		doc = "bottom"
+		for d := n + 3; d >= 1; d-- {
+			doc = []interface{}{float64(d), doc}
+		}
+		for k := 0; k < n; k++ {
+			steps = append(steps, gen.StIndex(1))
+		}
+		steps = append(steps, gen.StIndex(0))
+	default:
+		doc = map[string]interface{}{"leaf": float64(n)}
+		for k := n; k >= 1; k-- {
+			name := "k" + strconv.Itoa(k)
+			if mode != 0 && k%3 == 0 {
+				pos := k % 4
+				arr := []interface{}{"x0", "x1", "x2", "x3"}
+				arr[pos] = doc
+				doc = arr
+				steps = append([]gen.Step{gen.StIndex(int64(pos - 4*(k%2)))}, steps...)
+				continue
+			}
+			doc = map[string]interface{}{name: doc, "k" + strconv.Itoa(k+1): "decoy-next", "k" + strconv.Itoa(k-1): "decoy-prev"}
+			steps = append([]gen.Step{gen.StField(name)}, steps...)
+		}
+	}
+	switch mode {
+	case 4:
+		h := len(steps) / 2
+		if h == 0 {
+			return gen.Chain(nil, steps...), doc
+		}
+		return gen.Pipe(gen.Chain(nil, steps[:h]...), gen.Chain(nil, steps[h:]...)), doc
+	case 5:
+		c := gen.Chain(gen.Current(), steps...)
+		return gen.Pipe(gen.MultiList(c, gen.LitJSON("1"), c), gen.Chain(nil, gen.StIndex(2))), doc
+	}
+	return gen.Chain(nil, steps...), doc
 }
 
 func c01Account(t *mon.Tally, tree *gen.Expr, expr string, doc interface{}, res ref.Result, i int) {
